@@ -76,6 +76,21 @@ Definition iter_fwd (g : grid) : list (Z * sop) := iter_from 0 g.
 
 Definition first_qudit (o : sop) : nat := hd O (oloc o).
 
+(* operations_with_cycles(reverse=True) (CircuitGridIterator): cycles descending; inside a
+   cycle the qudits are walked downwards and an operation is yielded where it is first met,
+   i.e. by decreasing highest qudit -- NOT the reverse of the forward order, which goes by
+   location[0] *)
+Definition max_qudit (o : sop) : nat := fold_right Nat.max O (oloc o).
+Fixpoint insert_desc (x : sop) (l : list sop) : list sop :=
+  match l with
+  | [] => [x]
+  | y :: l' => if Nat.leb (max_qudit y) (max_qudit x) then x :: l else y :: insert_desc x l'
+  end.
+Definition sort_desc (c : cyc) : cyc := fold_right insert_desc [] c.
+Definition iter_rev (g : grid) : list (Z * sop) :=
+  flat_map (fun kc => map (fun o => (Z.of_nat (fst kc), o)) (sort_desc (snd kc)))
+           (rev (combine (seq 0 (length g)) g)).
+
 (* ---- state shared by the removal skeletons ------------------------------------------- *)
 Record st := mkSt {
   s_grid : grid;          (* circuit_copy: structure *)
@@ -158,11 +173,12 @@ Fixpoint tree_circs_aux (orig_nc : nat) (all : list grid) (chunk : list (Z * sop
                     | IndexErr => IndexErr
                     end
   end.
-(* stable insertion sort by number of operations (Python's sorted is stable) *)
+(* stable insertion sort by number of operations (Python's sorted is stable): elements are
+   inserted from the right end, each in FRONT of the elements with an equal key *)
 Fixpoint insert_by (x : grid) (l : list grid) : list grid :=
   match l with
   | [] => [x]
-  | y :: l' => if Nat.ltb (num_ops x) (num_ops y) then x :: l else y :: insert_by x l'
+  | y :: l' => if Nat.leb (num_ops x) (num_ops y) then x :: l else y :: insert_by x l'
   end.
 Definition sort_by_ops (l : list grid) : list grid := fold_right insert_by [] l.
 Definition tree_circs (orig_nc : nat) (base : grid) (chunk : list (Z * sop)) : res (list grid) :=
@@ -263,7 +279,7 @@ Variable cost : nat -> grid -> Z.
 Variable thr : Z.
 (* one scan round on circuit (g, ver); cost calls are numbered after the `offs` earlier ones *)
 Definition scan_round (left : bool) (filt : sop -> bool) (g : grid) (ver offs : nat) : res (grid * nat * nat) :=
-  match scan (fun k => cost (offs + k)) thr left filt g (if left then iter_fwd g else rev (iter_fwd g)) with
+  match scan (fun k => cost (offs + k)) thr left filt g (if left then iter_fwd g else iter_rev g) with
   | IndexErr => IndexErr
   | Ok s => Ok (s_grid s, (if Nat.eqb (s_ver s) 0 then ver else offs + s_ver s), offs + s_calls s)
   end.
